@@ -267,7 +267,9 @@ Proof.
   - eexists. eexists. reflexivity.
   - destruct (if is_iq n && needs_resp typ && negb (w_wrote w) && negb (is_nil (attr_get s_from a'))
               then c_jp c (attr_get s_from a') else Some []) as [j|].
-    + destruct (drain (c_ws c) fuel s2) as [e s3]. eexists. eexists. reflexivity.
+    + destruct (c_oclosed c && (is_iq n && needs_resp typ && negb (w_wrote w) || negb (is_nil (w_out w)))).
+      * eexists. eexists. reflexivity.
+      * destruct (drain (c_ws c) fuel s2) as [e s3]. eexists. eexists. reflexivity.
     + eexists. eexists. reflexivity.
 Qed.
 
